@@ -292,6 +292,9 @@ func (c15) Gen(rng *rand.Rand, tier string, i int) *sim.Scenario {
 		return genC15Free(rng)
 	}
 	o := requestOpts{queriesMin: 0, queriesMax: 4, e2eMax: 6, publicIP: 0.4, reverseDNS: 0.3, bigE2E: 0.01}
+	if tier == "thorough" {
+		o.queriesMax, o.e2eMax, o.bigE2E = 6, 10, 0.04
+	}
 	sc := genRequestScenario("C15", rng, o)
 	c := &sc.Calls[0]
 	if c.PublicIP {
